@@ -133,6 +133,12 @@ class AB:
             self.mode, self.b.mode, ans = "P", "P", b"Passive mode on.\n"
         elif verb == "help":
             ans = ("HELP",)
+        elif verb == "type":
+            # the type in use: the one the library reports (changed only by an acknowledged 'ascii' / 'binary')
+            if self.connected:
+                ans = b"Using binary transfer type.\n" if self.b.type == "I" else b"Using ascii transfer type.\n"
+            else:
+                ans = NOT_OPEN + b"\n"
         else:
             raise ValueError(verb)
         self.dist.add("local-verb:" + verb)
@@ -331,7 +337,7 @@ def fam_offline(rng, n, dist):
             if r < 0.6:
                 a.offline()
             elif r < 0.75:
-                a.local_cmd(rng.choice(["mode", "active", "passive", "help"]))
+                a.local_cmd(rng.choice(["mode", "active", "passive", "help", "type", "type"]))
             elif r < 0.9:
                 a.junk()
             elif r < 0.95:
@@ -368,7 +374,7 @@ def session_body(a, rng, dist, nops, faults=False):
             v = rng.choice(sorted(USAGE))
             a.usage(v, *USAGE[v])
         elif r < 0.5:
-            a.local_cmd(rng.choice(["mode", "active", "passive", "help"]))
+            a.local_cmd(rng.choice(["mode", "active", "passive", "help", "type", "type"]))
         elif r < 0.55:
             a.junk()
         elif r < 0.6:
